@@ -421,7 +421,7 @@ func (r *report) writeEvidence(nviol int) {
 	}
 	verName := map[string]string{"z3": "z3 4.8.12", "z3-new": "z3 5.1.0 (z3-new)", "cvc5": "cvc5 1.0.3", "cvc5-int": "cvc5 1.0.3 --solve-bv-as-int=sum"}
 	solvers := []string{verName[r.pd.solver()] + " (primary)"}
-	for _, f := range r.pd.Fallbacks {
+	for _, f := range r.pd.fallbacks() {
 		solvers = append(solvers, verName[f]+" (fallback on unknown)")
 	}
 	if r.tier == "thorough" && !r.pd.SingleSolver {
